@@ -380,6 +380,15 @@ func diffKeys(a, b Dump) []string {
 
 func callOnce(job *Job, reg *Reg, fp *FuncPlan, fn reflect.Value, val string, seed uint64, failSite string, failNth int) (rec *Rec) {
 	rec = &Rec{Scen: reg.ID, Fn: fp.Key, Val: val, Fail: failSite, FailNth: failNth, Err: "none", Judged: fp.Judge}
+	defer func() {
+		// a panic of the oracle itself must not end the batch: record it and go on
+		if p := recover(); p != nil {
+			rec.SigErr = "driver runtime panic while judging: " + fmt.Sprint(p)
+			vtr.Hook = nil
+			vtr.FailSite = ""
+			vtr.Muted = false
+		}
+	}()
 	ft := fn.Type()
 	ids := newIDs()
 	mode := val
@@ -560,7 +569,10 @@ func callOnce(job *Job, reg *Reg, fp *FuncPlan, fn reflect.Value, val string, se
 		}
 		if errV.IsNil() {
 			rec.Err = "nil"
-		} else if e, ok := errV.Interface().(*vtr.Err); ok && e == vtr.ErrOf(e.Site).(*vtr.Err) {
+		} else if e, ok := errV.Interface().(*vtr.Err); ok && e == nil {
+			// a typed nil pointer inside a non-nil error interface
+			rec.Err = "other:non-nil error holding a nil *vtr.Err (typed nil)"
+		} else if ok && e == vtr.ErrOf(e.Site).(*vtr.Err) {
 			rec.Err = "injected:" + e.Site
 		} else {
 			rec.Err = "other:" + fmt.Sprint(errV.Interface())
